@@ -316,7 +316,9 @@ func (bs *baseServer) Handshake(transportName string, ctx *types.HttpContext) (*
 
 	transport.On("headers", func(args ...any) {
 		headers, req := args[0].(*utils.ParameterBag), args[1].(*types.HttpContext)
-		if !ctx.Query().Has("sid") {
+		// the initial request is the one being answered (req), not the handshake
+		// request this closure was created for: only that response gets the cookie
+		if !req.Query().Has("sid") {
 			if cookie := bs.opts.Cookie(); cookie != nil {
 				headers.Set("Set-Cookie", cookie.String())
 			}
